@@ -397,6 +397,32 @@ func runC02(w *vx.W) {
 								}
 							}
 						}
+						// --- context: the slot is redefined with the same field list in the opposite byte order
+						if fitmodel.BaseSize(fd.Base) > 1 || e.Kind != kindNative {
+							plo := fitmodel.PutUint(binaryOrder(!big), len(pl), 0)
+							// same wire bytes, interpreted in the other order
+							copy(plo, pl)
+							wantO := newWant(m, ftb)
+							if modelSet(wantO, e, fd, !big, plo) {
+								d1 := fitmodel.Def{Local: 1, Big: big, Global: m, Fields: []fitmodel.FieldDef{fd}}
+								d2 := fitmodel.Def{Local: 1, Big: !big, Global: m, Fields: []fitmodel.FieldDef{fd}}
+								recs := append(fitmodel.FileIdRecords(0, ftb), d1.Bytes(), fitmodel.Data(1, pl), d2.Bytes(), fitmodel.Data(1, plo))
+								var exps []c02Expect
+								n := 1
+								if slotIsSlice(ftb, m) {
+									n = 2
+									exps = []c02Expect{{m, 0, want}, {m, 1, wantO}}
+								} else {
+									exps = []c02Expect{{m, 0, wantO}}
+								}
+								s := fitmodel.File(fitmodel.DefaultHeader, recs...)
+								w.Eval(1)
+								w.DistinctS(caseID + "/redefined-other-order")
+								if msg := c02Check(s, exps, map[uint16]int{m: n}); msg != "" {
+									report(e, fd, big, "redefined-in-the-other-byte-order", s, msg)
+								}
+							}
+						}
 						// --- context: developer fields on the same record (1 and 2 descriptors)
 						for nd := 1; nd <= 2; nd++ {
 							d := fitmodel.Def{Local: 1, Big: big, Global: m, Fields: []fitmodel.FieldDef{fd}, DevFlag: true}
